@@ -196,6 +196,7 @@ func c05(c *Ctx) {
 	}
 	nAdd := 0
 	var addSites []ssa.Instruction
+	casOld := map[ssa.Instruction]ssa.Value{} // compare-and-swap advance → the loaded value it replaces
 	for _, fn := range all {
 		eachInstr(fn, func(i ssa.Instruction) {
 			fa, ok := i.(*ssa.FieldAddr)
@@ -230,12 +231,33 @@ func c05(c *Ctx) {
 						r.OK("C05.R2", "atomic load in "+name, pos, cn)
 					case strings.HasPrefix(cn, "sync/atomic.Add"):
 						d, ok := constInt(u.Common().Args[1])
-						if r.Check(ok && d > 0, "C05.R2", "atomic add in "+name, pos, "cursor advanced by atomic +const", "cursor advanced by a non-positive or non-constant delta") {
+						if r.Check(ok && d == 1, "C05.R2", "atomic add in "+name, pos, "cursor advanced by atomic +1", "the cursor, which is used as the position served, is advanced by something other than the constant 1: positions go backwards or are skipped") {
 							nAdd++
 							addSites = append(addSites, ref)
 						}
+					case strings.HasPrefix(cn, "sync/atomic.CompareAndSwap") && len(u.Common().Args) == 3:
+						// a compare-and-swap advances the cursor when it replaces the value this call loaded atomically by that
+						// value plus a positive constant (the position is taken only if the swap succeeds: R3)
+						okCas := false
+						oldV := resolveLocal(u.Common().Args[1])
+						if ld, isLd := oldV.(*ssa.Call); isLd && strings.HasPrefix(calleeName(ld.Common()), "sync/atomic.Load") && isCur(ld.Call.Args[0]) {
+							if bo, isB := resolveLocal(u.Common().Args[2]).(*ssa.BinOp); isB && bo.Op == token.ADD {
+								x, y := resolveLocal(bo.X), resolveLocal(bo.Y)
+								if _, isC := x.(*ssa.Const); isC {
+									x, y = y, x
+								}
+								if d, isC := constInt(y); isC && d == 1 && x == oldV {
+									okCas = true
+								}
+							}
+						}
+						if r.Check(okCas, "C05.R2", "atomic compare-and-swap in "+name, pos, "cursor advanced from the loaded value to that value +1", "the compare-and-swap does not replace the atomically loaded cursor value by that value plus 1: positions can go backwards or be skipped") {
+							nAdd++
+							addSites = append(addSites, ref)
+							casOld[ref] = oldV
+						}
 					default:
-						r.Bad("C05.R2", "cursor op "+cn+" in "+name, pos, "cursor modified by "+cn+": only atomic add of a positive constant keeps positions monotone")
+						r.Bad("C05.R2", "cursor op "+cn+" in "+name, pos, "cursor modified by "+cn+": only an atomic advance by a positive constant keeps positions monotone")
 					}
 				default:
 					r.Bad("C05.R2", "cursor use in "+name, pos, fmt.Sprintf("unexpected use of the cursor address: %T", ref))
@@ -373,7 +395,8 @@ func c05(c *Ctx) {
 				guardListToDBM(m, k, cs.gs)
 				idx := k.TermOf(cs.idx)
 				// plain cursor load on the fast path: cursor==0 there by I1 (checked above)
-				if ul, ok := peel(cs.idx).(*ssa.UnOp); ok && ul.Op == token.MUL && isCur(ul.X) {
+				ul, plain := peel(cs.idx).(*ssa.UnOp)
+				if (plain && ul.Op == token.MUL && isCur(ul.X)) || (atomicLoads[idx.Var] && idx.K == 0) {
 					if m.EntailsLE(n, Term{"", 1}) {
 						m.AddLE(idx, Term{"", 0})
 						m.AddLE(Term{"", 0}, idx)
@@ -388,13 +411,27 @@ func c05(c *Ctx) {
 				var domAdd ssa.Instruction
 				for _, a := range adds {
 					if (cs.label == "" && domInstr(a, ret)) || (cs.label != "" && (a.Block() == cs.at || a.Block().Dominates(cs.at))) {
+						if _, isCas := casOld[a]; isCas {
+							// a compare-and-swap has advanced only where it is known to have succeeded
+							won := false
+							for _, g := range cs.gs {
+								if g.Cond == a.(ssa.Value) && g.Pol {
+									won = true
+								}
+							}
+							if !won {
+								continue
+							}
+						}
 						advancing, domAdd = true, a
 					}
 				}
 				if advancing {
 					// must serve the pre-increment position: an atomic load that precedes the add, or add-result-1
 					okPos := false
-					if atomicLoads[idx.Var] && idx.K == 0 {
+					if ov, isCas := casOld[domAdd]; isCas {
+						okPos = idx.Var == k.Key(ov) && idx.K == 0
+					} else if atomicLoads[idx.Var] && idx.K == 0 {
 						okPos = true
 					}
 					if cv, ok := domAdd.(ssa.Value); ok && idx.Var == k.Key(cv) && idx.K == -1 {
